@@ -25,6 +25,7 @@ CHECKS = {
     "C07": ("props_build", "check_c07"),
     "C15": ("props_build", "check_c15"),
     "C17": ("props_build", "check_c17"),
+    "C08": ("props_respell", "check_c08"),
     "C09": ("props_format", "check_c09"),
     "C10": ("props_format", "check_c10"),
 }
